@@ -22,7 +22,7 @@ type c13Case struct {
 	Blocks [][]TxSpec `json:"blocks"`
 }
 
-var c13Alphabet = []TxKind{KTransfer, KLog1, KLog2, KLogRevert, KCreateOK, KCreateFail, KIntrinsicLow, KValueTooHigh, KBurn, KBadNonce, KCosmosSend, KErc20Transfer, KCreateValueHigh}
+var c13Alphabet = []TxKind{KTransfer, KLog1, KLog2, KLogRevert, KCreateOK, KCreateFail, KIntrinsicLow, KValueTooHigh, KBurn, KBadNonce, KCosmosSend, KErc20Transfer, KCreateValueHigh, KCreateEmpty, KCreateSuicide}
 
 func c13World(maxGas int64) *world.World {
 	return world.New(world.Config{MaxGas: maxGas, NumWallets: 5, Contracts: StdContracts(), DeployErc20: true})
